@@ -182,7 +182,7 @@ def store_helper(ctx, name):
     ok_ret = False
     if util.is_call(rv) and rv[1].endswith("::index") and strip(rv[2][1])[0] == "agg":
         rg = strip(rv[2][1])
-        ia = se.term_info.get(rv[3][1], {}).get("locargs", (("?",),))[0]
+        ia = (se.term_info.get(rv[3][1], {}).get("locargs") or (("?",),))[0]
         end = util.numnorm(rg[4][-1])
         lo_ok = rg[2] == "std::ops::RangeTo" or (rg[2] == "std::ops::Range" and util.numnorm(rg[4][0])[:2] == ("int", 0))
         ok_ret = lo_ok and ia == ("ref", buf, False) and end[0] == "len" and strip(end[1]) in (strip(enc_data), ("param", 2))
@@ -259,7 +259,7 @@ def check(ctx, rep):
         if not (E[0] == "after" and util.is_call(E[1]) and E[2] == 1):
             return False
         info = ase.term_info.get(E[1][3][1], {})
-        la = info.get("locargs", (("?",),))[0]
+        la = (info.get("locargs") or (("?",),))[0]
         if E[1][1] == ENC + "::encrypt":
             return la[0] == "ref" and la[1] == self_root
         if E[1][1] == IC + "::apply":
